@@ -76,10 +76,10 @@ class EventDriver:
             if last['flav'] == 'e' or not last['sec'] or last['kind'] == 'nc':
                 want = (want[0], want[1], 0)        # the scripted sampler is not consulted
                 got = (got[0], got[1], 0)
-            if abs(got[0] - want[0]) > 1e-9 or abs(got[1] - want[1]) > 1e-9 or got[2] != want[2]:
+            if not (abs(got[0] - want[0]) <= 1e-9 and abs(got[1] - want[1]) <= 1e-9) or got[2] != want[2]:
                 raise Divergence('shower fractions (em, had in tenths, tries) for %s' % {k: last[k] for k in ('kind', 'flav', 'y', 'sec', 'cands', 'model')},
                                  want, got)
-            if abs(p.interaction.inelasticity * 10 - last['y']) > 1e-9:
+            if not (abs(p.interaction.inelasticity * 10 - last['y']) <= 1e-9):
                 raise Divergence('inelasticity', last['y'] / 10.0, p.interaction.inelasticity)
             return
         elif op == 'Sigma':
@@ -140,21 +140,21 @@ class EventDriver:
                 for k, v in vals.items():
                     if not (v > 0 and np.isfinite(v)):
                         raise Divergence(where + ': %s cross section positive' % k, '> 0', v)
-                if abs(nc.total_cross_section - vals['total']) > 1e-12 * vals['total']:
+                if not (abs(nc.total_cross_section - vals['total']) <= 1e-12 * vals['total']):
                     raise Divergence(where + ': total cross section independent of the interaction kind', vals['total'], nc.total_cross_section)
                 if last['additive'] and abs(vals['cc'] + vals['nc'] - vals['total']) > 1e-9 * vals['total']:
                     raise Divergence(where + ': cc + nc = total', vals['total'], vals['cc'] + vals['nc'])
                 for inter, key in ((cc, 'cc'), (nc, 'nc')):
                     want = 1 / (scipy.constants.N_A * vals[key])
-                    if abs(inter.interaction_length - want) > 1e-9 * want:
+                    if not (abs(inter.interaction_length - want) <= 1e-9 * want):
                         raise Divergence(where + ': %s interaction length = 1/(N_A sigma)' % key, want, inter.interaction_length)
                 want = 1 / (scipy.constants.N_A * vals['total'])
-                if abs(cc.total_interaction_length - want) > 1e-9 * want:
+                if not (abs(cc.total_interaction_length - want) <= 1e-9 * want):
                     raise Divergence(where + ': total interaction length = 1/(N_A sigma)', want, cc.total_interaction_length)
                 # the same interaction object after its kind is switched reports the other kind's numbers
                 cc.interaction_length
                 cc.kind = 'nc'
-                if abs(cc.cross_section - vals['nc']) > 1e-12 * vals['nc'] or abs(cc.interaction_length - nc.interaction_length) > 1e-9 * nc.interaction_length:
+                if not (abs(cc.cross_section - vals['nc']) <= 1e-12 * vals['nc'] and abs(cc.interaction_length - nc.interaction_length) <= 1e-9 * nc.interaction_length):
                     raise Divergence(where + ': interaction switched from cc to nc (cross section, length)', (vals['nc'], nc.interaction_length),
                                      (cc.cross_section, cc.interaction_length))
                 if prev is not None:
